@@ -185,6 +185,8 @@ def universe_tags(st):
     second_path = sum(paths) >= 2
     if "onlylx" in (st["m2"]["use1"], st["p"]["use1"]) and second_path:
         f.add("feature:onlyRename+secondPathToSameModule")
+    if st["m2"]["use1"] in ("onlylx", "renlx") and not st["m2"]["defpriv"]:
+        f.add("feature:moduleReexportsRenamedName")
     return f
 
 
@@ -439,6 +441,41 @@ def check_c12(job):
                     bad.append(({"c12:inaccessibleOffered", "site:" + site, "name:" + sorted(forbid & labels)[0]}, {"site": site, "prefix": prefix, "offered": sorted(forbid & labels)}))
                 if noprefix:
                     bad.append(({"c12:prefixIgnored", "site:" + site}, {"site": site, "prefix": prefix, "offered": sorted(noprefix)}))
+        # restricting contexts: USE, USE ..., ONLY:, CALL - typed on a fresh line of the program / of m2's procedure
+        ctx = st["ctx"]
+        names = ("x", "y", "lx")
+
+        def complete(fname, line, text):
+            adapter.notify(s, c, "textDocument/didChange", {"textDocument": {"uri": adapter.uri(d, fname)}, "contentChanges": [
+                {"range": {"start": {"line": line, "character": 0}, "end": {"line": line, "character": 0}}, "text": text + "\n"}]})
+            r = adapter.result_of(adapter.request(s, c, "textDocument/completion", adapter.posparams(d, fname, line, len(text))))
+            adapter.notify(s, c, "textDocument/didChange", {"textDocument": {"uri": adapter.uri(d, fname)}, "contentChanges": [
+                {"range": {"start": {"line": line, "character": 0}, "end": {"line": line + 1, "character": 0}}, "text": ""}]})
+            items = r.get("items", r) if isinstance(r, dict) else (r or [])
+            return {str(i.get("label", "")).lower() for i in items if isinstance(i, dict)}
+        pl = docs["p.f90"].lines
+        use_line = 1                                    # directly after "program p"
+        exec_line = pl.index("contains")                # last executable position of p
+        labels = complete("p.f90", use_line, "  use m")
+        if not set(ctx["useModules"]) <= labels or labels & set(names) or labels & {"s2", "q"}:
+            bad.append(({"c12:useContext"}, {"expected_modules": sorted(ctx["useModules"]), "labels": sorted(labels)[:30]}))
+        # (fortls offers nothing for an empty prefix unless --autocomplete_no_prefix: one letter is typed)
+        for mod, key in (("m1", "only1"), ("m2", "only2")):
+            for pre in ("x", "y", "s", "l"):
+                labels = complete("p.f90", use_line, "  use %s, only: %s" % (mod, pre))
+                want = {n for n in ctx[key] if n.startswith(pre)}
+                if labels != want:
+                    bad.append(({"c12:onlyContext", "module:" + mod} | ({"missing"} if want - labels else set()) | ({"extra"} if labels - want else set()),
+                                {"module": mod, "prefix": pre, "expected": sorted(want), "labels": sorted(labels)[:30]}))
+        for pre in ("q", "s", "x", "l"):
+            labels = complete("p.f90", exec_line, "  call " + pre)
+            want = {n for n in ctx["callP"] if n.startswith(pre)}
+            vars_offered = labels & set(names)
+            if not want <= labels or vars_offered:
+                bad.append(({"c12:callContext", "site:p"} | ({"missing"} if want - labels else set()) | ({"variableOffered"} if vars_offered else set()),
+                            {"prefix": pre, "expected_callables": sorted(want), "labels": sorted(labels)[:30]}))
+            if "s2" in labels and "s2" not in ctx["callP"]:
+                bad.append(({"c12:callContext", "site:p", "inaccessibleCallableOffered"}, {"prefix": pre, "labels": sorted(labels)[:30]}))
     finally:
         adapter.rmws(d)
     return [(t, dict(x, files=files)) for t, x in bad]
@@ -496,12 +533,14 @@ def run(pid, fn, tier, seed, assumptions):
 def tlaval_py(st):
     out = {k: st[k] for k in ("m1", "m2", "p", "q")}
     out["res"] = [[list(k), v] for k, v in st["res"].items()]
+    out["ctx"] = {k: list(v) for k, v in st.get("ctx", {}).items()}
     return out
 
 
 def state_from_py(o):
     st = {k: o[k] for k in ("m1", "m2", "p", "q")}
     st["res"] = {tuple(k): v for k, v in o["res"]}
+    st["ctx"] = o.get("ctx", {})
     for k in ("m1", "m2", "p", "q"):
         st[k]["decl"] = list(st[k]["decl"])
     return st
